@@ -25,7 +25,7 @@ RULE = ("seeded operator programs interleaved with chunked delivery on a real in
         "non-None reading; distinct = distinct digests of (trace, snapshots)")
 
 OPS = ("calculate", "purge", "recalculate", "calc_index", "calc_index", "add", "readd", "remove", "unknown_name",
-       "calc_range")
+       "calc_range", "readd_same")
 
 
 def plan(seed, subbatch):
@@ -47,6 +47,13 @@ def plan(seed, subbatch):
         tfs = [None, None] + ([tf, tf] if tf else [])
         members = sample_members(cfg, cfg.randint(1, 3), tfs, max_period=8, classes=pool)
         hexcfg = {"candlestick_type": "HA"} if cfg.random() < 0.2 else {}
+        lv = sub_rng(seed, "level")
+        if lv.random() < 0.25:
+            # a Hexital-level timeframe below the members' (members without one inherit it)
+            cands = [t for t in world.TIMEFRAMES if base_s <= tf_seconds(t) <= 4 * base_s
+                     and (tf is None or (tf_s % tf_seconds(t) == 0 and tf_seconds(t) < tf_s))]
+            if cands:
+                hexcfg["timeframe"] = lv.choice(cands)
     n = planlib.pick_n(cfg, (3, 15), (10, 60), (30, 150))
     if subbatch == "calm":
         faults, burst = {}, None
@@ -58,7 +65,7 @@ def plan(seed, subbatch):
     extra_specs = []
     for _ in range(n_ops):
         kind_op = op_rng.choice(OPS)
-        op = {"op": kind_op, "target": op_rng.choice((None, 0, 1, 2)) if kind_op not in ("remove", "readd") else op_rng.randint(0, 2)}
+        op = {"op": kind_op, "target": op_rng.choice((None, 0, 1, 2)) if kind_op not in ("remove", "readd", "readd_same") else op_rng.randint(0, 2)}
         if kind_op in ("purge", "recalculate") and op_rng.random() < 0.3:
             op["raw"] = True   # applied to the state as it is (e.g. right after add_indicator, before any calculate)
         if kind_op == "calc_range":
@@ -82,7 +89,7 @@ def plan(seed, subbatch):
                     break
             if "spec" not in op:
                 continue
-        if kind_op in ("remove", "readd") and kind == "indicator":
+        if kind_op in ("remove", "readd", "readd_same") and kind == "indicator":
             continue
         extras.append((op_rng.random(), op))
     start = world.pick_start(cfg, base_s, tf_s)
@@ -276,6 +283,16 @@ def execute(trace, ctx=None):
                     for name in before:
                         if before[name] != after.get(name):
                             raise Violation("add-touches-readings", label_of(None), "existing-manager", {"manager": name})
+                    applied += 1
+                elif kind == "readd_same":
+                    # the very same object taken out and put back: like any other sequence of removals and
+                    # additions it must end with the batch readings (checked by the final comparison)
+                    if m.kind != "hexital" or slot is None:
+                        run.stats["guard_skip:readd_same"] += 1
+                        continue
+                    m.readd_same(slot)
+                    m.calculate(None)
+                    run.stats["reach:same_object_removed_and_added_again"] += 1
                     applied += 1
                 elif kind == "readd":
                     if m.kind != "hexital" or slot is None:
